@@ -344,6 +344,26 @@ func (ex *Exec) replayTest(vals []string) (string, error) {
 		}
 		fmt.Fprintf(&sb, "\t%s := %s\n", strings.Join(rs, ", "), call)
 		fmt.Fprintf(&sb, "\tfmt.Printf(\"REPLAY-RETURNED: %s\\n\", %s)\n", strings.Repeat("%#v ", nres), strings.Join(rs, ", "))
+		for i := 0; i < nres; i++ {
+			rt := fn.Signature.Results().At(i).Type()
+			switch u := rt.Underlying().(type) {
+			case *types.Basic:
+				switch {
+				case u.Info()&types.IsInteger != 0 && u.Info()&types.IsUnsigned != 0:
+					fmt.Fprintf(&sb, "\tfmt.Printf(\"REPLAY-RESULT %d int %%d\\n\", uint64(r%d))\n", i, i)
+				case u.Info()&types.IsInteger != 0:
+					fmt.Fprintf(&sb, "\tfmt.Printf(\"REPLAY-RESULT %d int %%d\\n\", int64(r%d))\n", i, i)
+				case u.Info()&types.IsBoolean != 0:
+					fmt.Fprintf(&sb, "\tfmt.Printf(\"REPLAY-RESULT %d bool %%v\\n\", bool(r%d))\n", i, i)
+				case u.Info()&types.IsString != 0:
+					fmt.Fprintf(&sb, "\tfmt.Printf(\"REPLAY-RESULT %d len %%d\\n\", len(r%d))\n", i, i)
+				}
+			case *types.Slice:
+				fmt.Fprintf(&sb, "\tfmt.Printf(\"REPLAY-RESULT %d len %%d\\n\", len(r%d))\n", i, i)
+			case *types.Interface, *types.Pointer:
+				fmt.Fprintf(&sb, "\tfmt.Printf(\"REPLAY-RESULT %d nil %%v\\n\", r%d == nil)\n", i, i)
+			}
+		}
 	}
 	sb.WriteString("}\n")
 	body := sb.String()
@@ -460,6 +480,139 @@ func (cr *checkRun) tryReplay(j *OblResult) {
 	out, _ := runReplayTest(cr.o.Repo, pkgDir, src, 120*time.Second)
 	j.testSrc, j.testOut, j.pkgDir = src, out, pkgDir
 	j.Replay = classifyReplay(j.Kind, out)
+	if j.Kind == "post" && strings.HasPrefix(j.Replay, "not reproduced") {
+		if r := cr.postReplay(j, out); r != "" {
+			j.Replay = r
+		}
+	}
+}
+
+// postReplay evaluates a failed postcondition on the outputs of the real run: the entry inputs are pinned to the model,
+// the scalar handles on the results to what the real function returned, and the solver is asked whether the clause can
+// still be false on that path. If the clause mentions nothing else (no heap), a sat answer means the real run violates it.
+func (cr *checkRun) postReplay(j *OblResult, out string) string {
+	ex := j.ex
+	if j.ob == nil || j.failPath < 0 || j.failPath >= len(j.ob.Paths) || len(j.ob.Paths) > 64 {
+		return ""
+	}
+	pth := j.ob.Paths[j.failPath]
+	if len(pth.Results) == 0 {
+		return ""
+	}
+	obs := map[int][2]string{}
+	for _, l := range strings.Split(out, "\n") {
+		f := strings.Fields(strings.TrimSpace(l))
+		if len(f) == 4 && f[0] == "REPLAY-RESULT" {
+			var i int
+			fmt.Sscanf(f[1], "%d", &i)
+			obs[i] = [2]string{f[2], f[3]}
+		}
+	}
+	if len(obs) == 0 {
+		return ""
+	}
+	ex.mu.Lock()
+	defer ex.mu.Unlock()
+	ts := ex.ts
+	var pins []*Term
+	pinned := map[*Term]bool{}
+	vals0, _ := ex.modelTerms()
+	for k, t := range vals0 {
+		if k >= len(j.modelVals) {
+			break
+		}
+		n, ok := parseSMTValue(j.modelVals[k])
+		if !ok {
+			continue
+		}
+		switch {
+		case t.S == SBool:
+			if n.Sign() != 0 {
+				pins = append(pins, t)
+			} else {
+				pins = append(pins, ts.Not(t))
+			}
+		case t.S.K == KBV || t.S == SInt:
+			pins = append(pins, ts.Eq(t, ts.NumLit(n, t.S)))
+		default:
+			continue
+		}
+		pinned[t] = true
+	}
+	closedResults := true
+	for _, r := range pth.Results {
+		o, ok := obs[r.Idx]
+		if !ok || o[0] != r.Kind {
+			closedResults = false
+			continue
+		}
+		switch r.Kind {
+		case "int", "len":
+			n, ok := new(big.Int).SetString(o[1], 10)
+			if !ok {
+				closedResults = false
+				continue
+			}
+			if r.T.S.K == KBV {
+				n = new(big.Int).And(n, new(big.Int).Sub(new(big.Int).Lsh(big.NewInt(1), uint(r.T.S.W)), big.NewInt(1)))
+			}
+			pins = append(pins, ts.Eq(r.T, ts.NumLit(n, r.T.S)))
+		case "bool", "nil":
+			if o[1] == "true" {
+				pins = append(pins, r.T)
+			} else {
+				pins = append(pins, ts.Not(r.T))
+			}
+		}
+		collectConsts(r.T, pinned)
+	}
+	asserts := append([]*Term(nil), ex.axioms...)
+	asserts = append(asserts, pth.PC...)
+	asserts = append(asserts, ts.Not(pth.Cond))
+	asserts = append(asserts, pins...)
+	text := ts.Query(asserts, nil, "")
+	f := writeQuery(cr.o.WorkDir, j.Name+"-postreplay", text)
+	r := Solve(f, 10, cr.o.Seed, false, false)
+	if !cr.o.KeepQueries {
+		os.Remove(f)
+	}
+	free := map[*Term]bool{}
+	collectConsts(pth.Cond, free)
+	closed := closedResults
+	for c := range free {
+		if !pinned[c] {
+			closed = false
+		}
+	}
+	ret := firstLineWith(out, "REPLAY-RETURNED")
+	switch r.Status {
+	case "sat":
+		if closed {
+			return "REPRODUCED: the clause is false for the inputs of the model and the results of the real run (" + ret + ")"
+		}
+		return "not reproduced by the entry-state model alone: the real run (" + ret + ") is consistent with a violation, but the clause also depends on memory the replay does not observe"
+	case "unsat":
+		return "not reproduced: with the results of the real run (" + ret + ") pinned, the clause holds on the failing path; the model differs from the real run in values the contracts of callees leave open"
+	}
+	return ""
+}
+
+func collectConsts(t *Term, out map[*Term]bool) {
+	seen := map[*Term]bool{}
+	var walk func(t *Term)
+	walk = func(t *Term) {
+		if seen[t] {
+			return
+		}
+		seen[t] = true
+		if t.Op == "const" {
+			out[t] = true
+		}
+		for _, a := range t.Args {
+			walk(a)
+		}
+	}
+	walk(t)
 }
 
 var panicSignature = map[string][]string{
